@@ -78,7 +78,9 @@ func updatePackage(packageDir string, writePackageImpl func(*common.MatlabFileWr
 	}
 	fw := &common.MatlabFileWriter{PackageDir: packageDir}
 
-	writePackageImpl(fw)
+	if err := writePackageImpl(fw); err != nil {
+		return err
+	}
 
 	return fw.RemoveStaleFiles()
 }
